@@ -65,7 +65,24 @@ fn build(cfg: usize, e: &Value) -> DynV {
         "sub" => Box::new(ForSubject(e["s"].as_str().unwrap().to_string())),
         "aud" => Box::new(ForAudience(e["s"].as_str().unwrap().to_string())),
         "none" => Box::new(NoValidation::dangerous_no_validation()),
-        "and" => Box::new(build(cfg, &e["a"]).and_then(build(cfg, &e["b"]))),
+        "and" => {
+            // a left-nested `and` is built the way users write it, as ONE chain a.and_then(b).and_then(c)... on the combinator's own
+            // type (not re-boxed at every link); the meaning is that of the nesting
+            let mut links = vec![&e["b"]];
+            let mut left = &e["a"];
+            while left["op"] == "and" && links.len() < 3 {
+                links.push(&left["b"]);
+                left = &left["a"];
+            }
+            links.reverse();
+            let first = build(cfg, left);
+            let mut it = links.into_iter().map(|x| build(cfg, x));
+            match it.len() {
+                1 => Box::new(first.and_then(it.next().unwrap())),
+                2 => Box::new(first.and_then(it.next().unwrap()).and_then(it.next().unwrap())),
+                _ => Box::new(first.and_then(it.next().unwrap()).and_then(it.next().unwrap()).and_then(it.next().unwrap())),
+            }
+        }
         "slice" => {
             let v: Vec<DynV> = e["xs"].as_array().unwrap().iter().map(|x| build(cfg, x)).collect();
             let b: Box<[DynV]> = v.into_boxed_slice();
